@@ -275,7 +275,13 @@ def run_property(mod, tier="quick", replay_path=None):
         rp["verdict"] = verdict
         with open(path, "w") as f:
             json.dump(rp, f, indent=1, default=str)
-        violations.append((o["name"], path, verdict.get("verdict") == "reproduced"))
+        # "mirror" clauses of dataflow (abstract-mode) contracts equate a stored / returned value with a term built from
+        # uninterpreted library calls and summarised functions.  When such a clause fails and no input was reproduced, the change may
+        # be a semantics-preserving rewrite that the abstraction cannot see through: it is reported as a violation only if the
+        # bounded stand-ins of the property confirm a violating input, otherwise as UNDECIDED (never a false alarm).
+        mirror = (o["kind"] == "ensures" and verdict.get("verdict") != "reproduced"
+                  and re.search(r"\b(summary|lib|meth|getitem|constructed|dscopy|lib_ref)\(", o.get("clause") or "") is not None)
+        violations.append((o["name"], path, verdict.get("verdict") == "reproduced") + (("mirror",) if mirror else ()))
 
     # ---------------------------------------------------------------- bounded stand-ins
     standins = []
@@ -331,6 +337,16 @@ def run_property(mod, tier="quick", replay_path=None):
             if len([v for v in violations if v[0].startswith("standin:")]) >= 8:
                 break
 
+    if not any(v[0].startswith("standin:") for v in violations):
+        kept = []
+        for v in violations:
+            if len(v) > 3 and v[3] == "mirror":
+                undecided.append({"function": v[0].split("/")[0], "reason": f"dataflow clause {v[0]} no longer matches the code, but the bounded "
+                                  f"stand-ins found no violating input (possibly an equivalent rewrite): see {os.path.relpath(v[1], VERIF)}"})
+            else:
+                kept.append(v)
+        violations = kept
+    violations = [v[:3] for v in violations]
     wall = time.time() - t0
     # ---------------------------------------------------------------- evidence
     proof_ok = total > 0 and discharged == total and not undecided and not errors
